@@ -2,6 +2,7 @@ SPECIFICATION Spec
 CONSTANTS
   CatchReceiveError = TRUE
   ResetOnAccept = TRUE
+  ResetOnEof = FALSE
   CatchSendError = FALSE
   MaxConns = 3
   MaxEdits = 1
